@@ -3,6 +3,7 @@ import CCVerif.Model.AstQuery
 import CCVerif.Lemmas.ParserRangesLex
 import CCVerif.Lemmas.ParserShapeTop
 import CCVerif.Lemmas.RangeExactPos
+import CCVerif.Lemmas.ParseRender
 /-!
 # C06 — the parser builds the grammar's tree; node ranges delimit their source text
 
@@ -840,6 +841,186 @@ example :
     (parseToks ts).map (fun t => (t.id, t.lo, t.hi, t.kids.map (fun k => (k.id, k.lo, k.hi)))) ==
       some (.MULTIPLY, 0, 11, [(.PLUS, 0, 7), (.ID_LOCAL, 10, 11)]) &&
     RangeExact.loAt ts 0 6 == 10 && RangeExact.hiAt ts 0 4 == 7) = true := by
+  decide +kernel
+
+
+/-! ## redundant parentheses leave no trace; precedence, associativity, flattening, quantifier scope
+
+`PR.R3` (`Lemmas/ParseRenderDef.lean`) = the terms of the fragment `E3` of C05 (`Model/PPFragment3.lean`: every
+expression form the printer writes - atoms, text functions, `+ - * ∪ ∩ \ ∆`, n-ary `×`, predicates, `¬ & ∨ ⇒ ⇔`, `ℬ`,
+enumerations, tuples, `F[…]`, `P[…]`, filters, quantifiers, `D{…}`, `R{…}`, `I{…}` with its blocks) with one more
+constructor `par` = "a pair of parentheses the printer would not write". `R3.toks` writes the REQUIRED parentheses
+exactly as the printer does (`E3.toks`) and `( … )` for every `par`; `R3.wf` admits `par` where `RSParserImpl.y` does:
+around a `setexpr_binary` any number of times and wherever a set expression stands, around a `logic_binary` /
+`logic_predicates` ONCE and only as operand of a connective, of `¬` or as body of a quantifier (`logic_par`; so never on
+top of required parentheses, never at the top of the expression, as body of `D{…|…}`, condition of `R{…|…|…}` or block of
+`I{…}`), nowhere else. `R3.erase` forgets the `par`s. Proofs: `Lemmas/ParseRender*.lean` (the development of
+`parse_print_fragment3` re-done over `R3`). -/
+
+open CCVerif.PP (tk prec isSetOp7) in
+open CCVerif.PR (R3 SetOperand LogOperand bin lps rps) in
+/-- **parse_renders_parens** (fragment `E3`; tokens, so together with `parse_renders_partial` for every layout): every
+rendering `r` of a term of the fragment with any admissible redundant parentheses parses, to the tree of the term it
+denotes (`r.erase.ast`: no trace of the redundant pairs) = the tree the parser returns on the canonical rendering (the
+printer's token sequence `r.erase.toks`), and the denoted term is a well-formed term of the fragment. Hypotheses: `r` is
+well-formed (`R3.wf`: categories as `E3.wf` + the admissible positions of `par`) and may stand at the top (`R3.topOK`: a
+set expression, or a formula not itself in parentheses). -/
+theorem parse_renders_parens (r : R3) (hw : r.wf = true) (ht : r.topOK = true) :
+    parseToks (r.toks ++ [tk .END]) = some r.erase.ast ∧
+    parseToks (r.toks ++ [tk .END]) = parseToks (r.erase.toks ++ [tk .END]) ∧
+    r.erase.wf = true :=
+  ⟨PR.parse_render r hw ht, PR.parse_render_canonical r hw ht, PR.wf_erase r hw⟩
+
+/-- the canonical rendering (the printer's text, `parse_print_fragment3` of C05) is the rendering without `par`:
+`parse_renders_parens` contains `parse_print_fragment3` -/
+theorem canonical_is_rendering (e : PP3.E3) (hw : e.wf = true) :
+    (PR.ofE3 e).wf = true ∧ (PR.ofE3 e).toks = e.toks ∧ (PR.ofE3 e).erase = e ∧ (PR.ofE3 e).pars = 0 := by
+  refine ⟨PR.wf_ofE3 e hw, PR.toks_ofE3 e, PR.erase_ofE3 e, ?_⟩
+  induction e <;> simp_all [PR.ofE3, R3.pars]
+
+/-- the statement for the WHOLE grammar (not proved: `E3` lacks the short form `{x∈S | P}` of a declarative term,
+function definitions `[a∈X1] e` and global declarations `X1:==e` at the top): whenever two token streams differ only by
+admissible redundant parentheses they parse to the same tree. Not stated over an inductive rendering of arbitrary
+`Ast`s (no such rendering exists in Lean; the harness has one: `harness/syntax_gen.hpp`). -/
+def parse_renders_parens_statement : Prop :=
+  ∀ r : R3, r.wf = true → r.topOK = true → ∀ pre : List LTok,
+    (parseToks (pre ++ r.toks ++ [tk .END])).isSome = (parseToks (pre ++ r.erase.toks ++ [tk .END])).isSome
+
+open CCVerif.PP (tk prec isSetOp7) in
+open CCVerif.PR (R3 SetOperand LogOperand bin) in
+/-- **binary_left_assoc** (precedence and associativity; fragment `E3`): for two operators of `+ - * ∪ ∩ \ ∆` (first
+clause) or of `& ∨ ⇒ ⇔` (second clause) and operands `a b c` - ANY renderings that are not themselves unparenthesised
+binary operations of the family (`SetOperand` / `LogOperand`: primaries, parenthesised phrases, …) - the token
+sequence `a op1 b op2 c` parses as `(a op1 b) op2 c` when `op2` binds no tighter than `op1` in the regenerated
+`%left` table (`precLines`: same line - e.g. the same operator, `+`/`-`, `∪ ∩ \ ∆` - or a lower one), and as
+`a op1 (b op2 c)` when it binds strictly tighter. All eleven operators are `%left`. -/
+theorem binary_left_assoc (op1 op2 : Tok) (a b c : R3) :
+    (isSetOp7 op1 = true → isSetOp7 op2 = true → SetOperand a → SetOperand b → SetOperand c →
+      (prec op2 ≤ prec op1 → parseToks (a.toks ++ tk op1 :: (b.toks ++ tk op2 :: (c.toks ++ [tk .END]))) =
+        some (bin op2 (bin op1 a.erase.ast b.erase.ast) c.erase.ast)) ∧
+      (prec op1 < prec op2 → parseToks (a.toks ++ tk op1 :: (b.toks ++ tk op2 :: (c.toks ++ [tk .END]))) =
+        some (bin op1 a.erase.ast (bin op2 b.erase.ast c.erase.ast)))) ∧
+    (isLogicOp op1 = true → isLogicOp op2 = true → LogOperand a → LogOperand b → LogOperand c →
+      (prec op2 ≤ prec op1 → parseToks (a.toks ++ tk op1 :: (b.toks ++ tk op2 :: (c.toks ++ [tk .END]))) =
+        some (bin op2 (bin op1 a.erase.ast b.erase.ast) c.erase.ast)) ∧
+      (prec op1 < prec op2 → parseToks (a.toks ++ tk op1 :: (b.toks ++ tk op2 :: (c.toks ++ [tk .END]))) =
+        some (bin op1 a.erase.ast (bin op2 b.erase.ast c.erase.ast)))) :=
+  ⟨fun h1 h2 ha hb hc => ⟨fun hp => PR.set_left_assoc op1 op2 h1 h2 hp a b c ha hb hc,
+      fun hp => PR.set_precedence op1 op2 h1 h2 hp a b c ha hb hc⟩,
+    fun h1 h2 ha hb hc => ⟨fun hp => PR.logic_left_assoc op1 op2 h1 h2 hp a b c ha hb hc,
+      fun hp => PR.logic_precedence op1 op2 h1 h2 hp a b c ha hb hc⟩⟩
+
+/-- the precedence table the theorem refers to (regenerated `%left` lines, lowest first): `+ -` < `*` < (`¬`) < `⇔` <
+`⇒` < `∨` < `&` < `× ∪ ∩ \ ∆` -/
+example : [Tok.PLUS, .MINUS, .MULTIPLY, .EQUIVALENT, .IMPLICATION, .OR, .AND, .DECART, .UNION, .INTERSECTION, .SET_MINUS,
+    .SYMMINUS].map PP.prec = [0, 0, 1, 3, 4, 5, 6, 7, 7, 7, 7, 7] := by decide +kernel
+
+open CCVerif.PP (tk) in
+open CCVerif.PR (R3 SetOperand bin lps rps) in
+/-- **product_flattening** (n-ary flattening of UNPARENTHESISED products only; fragment `E3`): (1) an unparenthesised
+product `p` of any length followed by `× k` is ONE `DECART` node with `k` as one more child; (2) `a × b × c` is one
+ternary node; (3) `(a × b) × c` - with any number `n + 1` of pairs - and (4) `a × (b × c)` are nested binary nodes. -/
+theorem product_flattening (a b c : R3) (ha : SetOperand a) (hb : SetOperand b) (hc : SetOperand c) :
+    (∀ p : R3, p.wf = true → p.isProd = true →
+      parseToks (p.toks ++ tk .DECART :: (c.toks ++ [tk .END])) =
+        some (.node .DECART .none 0 0 (p.erase.ast.kids ++ [c.erase.ast]))) ∧
+    parseToks (a.toks ++ tk .DECART :: (b.toks ++ tk .DECART :: (c.toks ++ [tk .END]))) =
+      some (.node .DECART .none 0 0 [a.erase.ast, b.erase.ast, c.erase.ast]) ∧
+    (∀ n, parseToks (lps (n + 1) ++ (a.toks ++ tk .DECART :: b.toks) ++ rps (n + 1) ++ tk .DECART :: (c.toks ++ [tk .END])) =
+      some (bin .DECART (bin .DECART a.erase.ast b.erase.ast) c.erase.ast)) ∧
+    parseToks (a.toks ++ tk .DECART :: tk .PUNC_PL :: (b.toks ++ tk .DECART :: (c.toks ++ [tk .PUNC_PR, tk .END]))) =
+      some (bin .DECART a.erase.ast (bin .DECART b.erase.ast c.erase.ast)) :=
+  ⟨fun p hp hpP => PR.prod_flatten p c hp hpP hc, PR.prod_flat3 a b c ha hb hc,
+    fun n => PR.prod_nested_left n a b c ha hb hc, PR.prod_nested_right a b c ha hb hc⟩
+
+open CCVerif.PP (tk) in
+open CCVerif.PR (R3 LogOperand bin) in
+/-- **quantifier_scope** (scope limited to the next non-binary formula; fragment `E3`): for a quantifier `q`, any
+connective `op` (whatever its precedence), a variable list `vs`, a domain `dom` and formulas `P`, `Q` that are not
+unparenthesised connectives, `q vs ∈ dom P op Q` parses as `(q vs ∈ dom P) op Q`; likewise `¬P op Q` as `(¬P) op Q`. -/
+theorem quantifier_scope (q op : Tok) (hq : (q == .FORALL || q == .EXISTS) = true) (hop : isLogicOp op = true)
+    (vs dom P Q : R3) (hvw : vs.wf = true) (hvA : vs.isA = true) (hvV : vs.isVar = true)
+    (hdw : dom.wf = true) (hdS : dom.isS = true) (hP : LogOperand P) (hQ : LogOperand Q) :
+    parseToks (tk q :: (vs.toks ++ tk .IN :: (dom.toks ++ (P.toks ++ tk op :: (Q.toks ++ [tk .END]))))) =
+      some (bin op (.node q .none 0 0 [vs.erase.declOf, dom.erase.ast, P.erase.ast]) Q.erase.ast) ∧
+    parseToks (tk .NOT :: (P.toks ++ tk op :: (Q.toks ++ [tk .END]))) =
+      some (bin op (.node .NOT .none 0 0 [P.erase.ast]) Q.erase.ast) :=
+  ⟨PR.quant_scope q op hq hop vs dom P Q hvw hvA hvV hdw hdS hP hQ, PR.neg_scope op hop P Q hP hQ⟩
+
+/-! ### non-vacuity and the limits of the freedom (closed token streams, `decide`) -/
+
+private def tA : R3 := .atom .ID_LOCAL (.text "a")
+private def tB : R3 := .atom .ID_LOCAL (.text "b")
+private def tX (n : String) : R3 := .atom .ID_GLOBAL (.text n)
+private def tEq : R3 := .pred .EQUAL tA tB
+private def tIn : R3 := .pred .IN tA (tX "X1")
+
+/-- `((a+b))*(a)`-like rendering: `((a+b))*((a×b))` with doubled redundant pairs on both sides, one of them on top of a
+required pair; it is well-formed, has 3 redundant pairs, denotes `(a+b)*(a×b)`, and both token streams parse to the
+same tree `*(+(a,b), ×(a,b))` -/
+example :
+    let r : R3 := .sbin .MULTIPLY (.par (.par (.sbin .PLUS tA tB))) (.par (.par (.prod2 tA tB)))
+    (r.wf && r.topOK && r.pars == 3 &&
+     r.toks.map (·.id) == [.PUNC_PL, .PUNC_PL, .ID_LOCAL, .PLUS, .ID_LOCAL, .PUNC_PR, .PUNC_PR, .MULTIPLY,
+       .PUNC_PL, .PUNC_PL, .ID_LOCAL, .DECART, .ID_LOCAL, .PUNC_PR, .PUNC_PR] &&
+     r.erase.toks.map (·.id) == [.PUNC_PL, .ID_LOCAL, .PLUS, .ID_LOCAL, .PUNC_PR, .MULTIPLY,
+       .PUNC_PL, .ID_LOCAL, .DECART, .ID_LOCAL, .PUNC_PR] &&
+     (parseToks (r.toks ++ [PP.tk .END])).map (fun t => (t.id, t.kids.map (fun k => (k.id, k.kids.length)))) ==
+       some (.MULTIPLY, [(.PLUS, 2), (.DECART, 2)]) &&
+     parseToks (r.toks ++ [PP.tk .END]) == parseToks (r.erase.toks ++ [PP.tk .END])) = true := by
+  decide +kernel
+
+/-- a formula with every admissible kind of redundant pair: `∀a∈((X1∪X1)) (a∈X1) & ¬(a=b) ∨ (a=b)` - redundant
+pairs around the domain (twice), the body of the quantifier, the operand of `¬` and an operand of `∨`; well-formed, and
+the parentheses leave no trace -/
+example :
+    let r : R3 := .lbin .OR
+      (.lbin .AND (.quant .FORALL (.one tA) (.par (.par (.sbin .UNION (tX "X1") (tX "X1")))) (.par tIn)) (.neg (.par tEq)))
+      (.par tEq)
+    (r.wf && r.topOK && r.pars == 5 && parseToks (r.toks ++ [PP.tk .END]) == some r.erase.ast &&
+     parseToks (r.toks ++ [PP.tk .END]) == parseToks (r.erase.toks ++ [PP.tk .END]) &&
+     r.erase.toks.length + 10 == r.toks.length) = true := by
+  decide +kernel
+
+/-- non-vacuity of `binary_left_assoc`, `product_flattening`, `quantifier_scope` on closed streams: `a-b+a` is
+`(a-b)+a`, `a+b*a` is `a+(b*a)`, `X1∪X2∩X3` is `(X1∪X2)∩X3` (one `%left` line), `a=b ⇒ a=b & a=b` is `a=b ⇒ (a=b & a=b)`,
+`X1×X2×X3` has three children, `((X1×X2))×X3` two, `∀a∈X1 a∈X1 & a=b` is `(∀…) & a=b`; and the operands of the
+theorems exist: atoms, parenthesised binary phrases, predicates, parenthesised formulas -/
+example :
+    let sh (ts : List LTok) := (parseToks (ts ++ [PP.tk .END])).map fun t => (t.id, t.kids.map fun k => (k.id, k.kids.length))
+    let X (n : String) : LTok := PP.tk .ID_GLOBAL (.text n)
+    let a : LTok := PP.tk .ID_LOCAL (.text "a")
+    let b : LTok := PP.tk .ID_LOCAL (.text "b")
+    let t (i : Tok) : LTok := PP.tk i
+    (sh [a, t .MINUS, b, t .PLUS, a] == some (.PLUS, [(.MINUS, 2), (.ID_LOCAL, 0)]) &&
+     sh [a, t .PLUS, b, t .MULTIPLY, a] == some (.PLUS, [(.ID_LOCAL, 0), (.MULTIPLY, 2)]) &&
+     sh [X "X1", t .UNION, X "X2", t .INTERSECTION, X "X3"] == some (.INTERSECTION, [(.UNION, 2), (.ID_GLOBAL, 0)]) &&
+     sh [a, t .EQUAL, b, t .IMPLICATION, a, t .EQUAL, b, t .AND, a, t .EQUAL, b] == some (.IMPLICATION, [(.EQUAL, 2), (.AND, 2)]) &&
+     sh [X "X1", t .DECART, X "X2", t .DECART, X "X3"] == some (.DECART, [(.ID_GLOBAL, 0), (.ID_GLOBAL, 0), (.ID_GLOBAL, 0)]) &&
+     sh [t .PUNC_PL, t .PUNC_PL, X "X1", t .DECART, X "X2", t .PUNC_PR, t .PUNC_PR, t .DECART, X "X3"] ==
+       some (.DECART, [(.DECART, 2), (.ID_GLOBAL, 0)]) &&
+     sh [t .FORALL, a, t .IN, X "X1", a, t .IN, X "X1", t .AND, a, t .EQUAL, b] == some (.AND, [(.FORALL, 3), (.EQUAL, 2)])) = true ∧
+    PR.SetOperand tA ∧ PR.SetOperand (.par (.sbin .PLUS tA tB)) ∧ PR.LogOperand tEq ∧ PR.LogOperand (.par tEq) ∧
+    PR.LogOperand (.quant .FORALL (.one tA) (tX "X1") tIn) := by
+  refine ⟨by decide +kernel, ?_, ?_, ?_, ?_, ?_⟩ <;> exact ⟨by decide +kernel, by decide +kernel, by decide +kernel⟩
+
+/-- **the freedom is exactly what `R3.wf` says** - the limits, on closed streams (all of them REJECTED by the parser
+model, as by the grammar: `logic_par` is neither `logic_binary` nor `logic_predicates`, and no other nonterminal has a
+parenthesised production): doubled parentheses around a formula `((a=b)) & a=b`, parentheses around a formula at the top
+`(a=b)`, around a negation `(¬a=b) & a=b`, around an atom `(a)+b`, around the body of `D{a∈X1 | (a=b)}`; while ONE pair
+around a predicate operand `(a=b) & a=b` is accepted. So "any number of redundant pairs" is false for formulas. -/
+theorem parens_limits :
+    let ok (ts : List LTok) := (parseToks (ts ++ [PP.tk .END])).isSome
+    let a : LTok := PP.tk .ID_LOCAL (.text "a")
+    let b : LTok := PP.tk .ID_LOCAL (.text "b")
+    let t (i : Tok) : LTok := PP.tk i
+    ok [t .PUNC_PL, t .PUNC_PL, a, t .EQUAL, b, t .PUNC_PR, t .PUNC_PR, t .AND, a, t .EQUAL, b] = false ∧
+    ok [t .PUNC_PL, a, t .EQUAL, b, t .PUNC_PR] = false ∧
+    ok [t .PUNC_PL, t .NOT, a, t .EQUAL, b, t .PUNC_PR, t .AND, a, t .EQUAL, b] = false ∧
+    ok [t .PUNC_PL, a, t .PUNC_PR, t .PLUS, b] = false ∧
+    ok [t .DECLARATIVE, t .PUNC_CL, a, t .IN, PP.tk .ID_GLOBAL (.text "X1"), t .PUNC_BAR, t .PUNC_PL, a, t .EQUAL, b,
+      t .PUNC_PR, t .PUNC_CR] = false ∧
+    ok [t .PUNC_PL, a, t .EQUAL, b, t .PUNC_PR, t .AND, a, t .EQUAL, b] = true := by
   decide +kernel
 
 end CCVerif.C06
